@@ -320,8 +320,15 @@ type oracleC10 struct {
 
 // ctxLatched reports whether the context holds a pending error (read-only peek).
 func ctxLatched(c *dctx.Context) bool {
-	f := reflect.ValueOf(c).Elem().FieldByName("err")
-	return f.IsValid() && f.Kind() == reflect.Interface && !f.IsNil()
+	// the field of type error, whatever its name
+	v := reflect.ValueOf(c).Elem()
+	errT := reflect.TypeOf((*error)(nil)).Elem()
+	for i := 0; i < v.NumField(); i++ {
+		if f := v.Field(i); f.Type() == errT {
+			return !f.IsNil()
+		}
+	}
+	return false
 }
 
 func (o *oracleC10) monitor() func(task, op int, site uint32) string { return nil }
